@@ -13,6 +13,16 @@ use groestl_aesni::{Digest, Groestl224, Groestl256, Groestl384, Groestl512};
 use std::panic::{catch_unwind, AssertUnwindSafe};
 
 const VARIANTS: [u32; 4] = [224, 256, 384, 512];
+/// digest bytes each variant must return: the Coq runner cuts the digest literal to this size, so the
+/// length actually returned is checked here (a wrong length is a direct failure)
+fn out_len(v: u32) -> usize {
+    match v {
+        224 => 28,
+        256 => 32,
+        384 => 48,
+        _ => 64,
+    }
+}
 fn block_size(v: u32) -> usize {
     if v <= 256 {
         64
@@ -102,8 +112,9 @@ fn real_state(v: u32, pre: &[u8]) -> (Vec<u8>, u64, Vec<u8>) {
     }
 }
 
-/// really stream `n` patterned bytes (update calls of varying sizes), read the state back
-fn real_stream(v: u32, n: u64) -> (Vec<u8>, u64, Vec<u8>) {
+/// really stream `n` patterned bytes (update calls of varying sizes), read the state back, then continue
+/// the SAME object with `tail` and finalise it: (cv, block_counter, buffered, digest of the same object)
+fn real_stream(v: u32, n: u64, tail: &[u8]) -> (Vec<u8>, u64, Vec<u8>, Vec<u8>) {
     macro_rules! go {
         ($t:ident) => {{
             let mut h = $t::default();
@@ -117,7 +128,8 @@ fn real_stream(v: u32, n: u64) -> (Vec<u8>, u64, Vec<u8>) {
                 k += 1;
             }
             let (cv, cnt, content, pos) = h.verif_get_state();
-            (cv.to_vec(), cnt, content[..pos].to_vec())
+            h.update(tail);
+            (cv.to_vec(), cnt, content[..pos].to_vec(), h.finalize().to_vec())
         }};
     }
     match v {
@@ -442,9 +454,12 @@ struct SCase {
     buffered: Vec<u8>,
     tail: Vec<u8>,
     stream: &'static str,
+    /// Some(r): the outcome was already obtained (by the object that reached the state by hashing: r = its
+    /// digest, None = it panicked); None: enter the state into a fresh object
+    pre: Option<Option<Vec<u8>>>,
 }
 
-fn gen_states(rng: &mut Rng, thorough: bool) -> Vec<SCase> {
+fn gen_states(rng: &mut Rng, thorough: bool, seed: u64) -> Vec<SCase> {
     let mut out = Vec::new();
     // C: real states read back through the hook (ties the stored layout of the chaining
     //    value and the meaning of block_counter to genuine states)
@@ -452,9 +467,13 @@ fn gen_states(rng: &mut Rng, thorough: bool) -> Vec<SCase> {
         let bs = block_size(v);
         let pre_len = [0, 1, bs, bs + 7, 2 * bs - 1, 3 * bs, bs - 8, 2 * bs - 9][k / 4 % 8] + (k / 32) * bs;
         let pre = content(rng, k, pre_len);
-        let (cv, count, buffered) = real_state(v, &pre);
+        // (a panic while absorbing a plain message is reported by the digest cases; here the state is skipped)
+        let (cv, count, buffered) = match catch_unwind(AssertUnwindSafe(|| real_state(v, &pre))) {
+            Ok(x) => x,
+            Err(_) => continue,
+        };
         let tail = content(rng, k + 1, [0, 1, bs - 8, bs, 9][k % 5]);
-        out.push(SCase { v, cv, count, buffered, tail, stream: "hook_real_state" });
+        out.push(SCase { v, cv, count, buffered, tail, stream: "hook_real_state", pre: None });
     }
     // D: arbitrary chaining value, block_counter next to a carry boundary, buffered/tail
     //    lengths so that the final count lands on either side of it
@@ -492,18 +511,19 @@ fn gen_states(rng: &mut Rng, thorough: bool) -> Vec<SCase> {
             ];
             for (si, &(nb, nt)) in shapes.iter().enumerate() {
                 k += 1;
-                // quick tier: a rotating quarter of the shapes (an eighth for the truncated
-                // variants), so that every shape meets every boundary in some variant
+                // quick tier: a quarter of the shapes (an eighth for the truncated variants), rotating with
+                // the boundary, the variant AND the seed, so that every (shape, count, variant) is met at
+                // some seed
                 let ci = counts.iter().position(|&c| c == count).unwrap();
                 let vi = VARIANTS.iter().position(|&x| x == v).unwrap();
                 let m = if v == 224 || v == 384 { 8 } else { 4 };
-                if !thorough && (si + ci + 3 * vi) % m != 0 {
+                if !thorough && (si + ci + 3 * vi + seed as usize) % m != 0 {
                     continue;
                 }
                 let cv = if k % 7 == 0 { (0..bs).map(|i| i as u8).collect() } else { content(rng, k % 4 * 4, bs) };
                 let buffered = content(rng, k, nb);
                 let tail = content(rng, k + si, nt);
-                out.push(SCase { v, cv, count, buffered, tail, stream: "hook_counter_boundary" });
+                out.push(SCase { v, cv, count, buffered, tail, stream: "hook_counter_boundary", pre: None });
             }
         }
     }
@@ -558,7 +578,7 @@ fn main() {
 
     let mut rng = Rng::new(seed ^ 0x6705_7e51);
     let dcases = if hook_only { Vec::new() } else { gen_digests(&mut rng, thorough, reduced) };
-    let mut scases = gen_states(&mut rng, thorough);
+    let mut scases = gen_states(&mut rng, thorough, seed);
     // C17: block counts 2^8, 2^16 (and 2^24 from the fourth case on) reached by really streaming
     // data; the counter read back must be the number of blocks streamed, the tail then crosses it
     let mut real_direct: Vec<String> = Vec::new();
@@ -569,7 +589,14 @@ fn main() {
         let p = [8u32, 16, 16, 24, 8, 24][k as usize % 6];
         let below = [1u64, 2 * bs + 5, bs - 8, bs + 1, 3 * bs, 9][k as usize % 6]; // bytes short of 2^p blocks
         let n = (bs << p) - below;
-        let (cv, count, buffered) = real_stream(v, n);
+        let tail = content(&mut rng, k as usize, below as usize + [0usize, 1, 7, bs as usize - 8, bs as usize][k as usize % 5]);
+        let (cv, count, buffered, same) = match catch_unwind(AssertUnwindSafe(|| real_stream(v, n, &tail))) {
+            Ok(x) => x,
+            Err(_) => {
+                real_direct.push(format!("{{\"kind\":\"panic while really streaming\",\"variant\":{},\"streamed\":{}}}", v, n));
+                continue;
+            }
+        };
         real_bytes += n;
         if count != n / bs || buffered.len() as u64 != n % bs {
             real_direct.push(format!(
@@ -577,8 +604,17 @@ fn main() {
                 v, n, count, buffered.len()
             ));
         }
-        let tail = content(&mut rng, k as usize, below as usize + [0usize, 1, 7, bs as usize - 8, bs as usize][k as usize % 5]);
-        scases.push(SCase { v, cv, count, buffered, tail, stream: "real_stream" });
+        // the tail crosses the boundary twice: in a fresh object the read-back state is entered into, and in the
+        // streamed object itself (a private field the hook does not expose would make the two differ)
+        let fresh = digest_from(v, &cv, count, &buffered, &tail);
+        if fresh.as_deref() != Some(&same[..]) {
+            real_direct.push(format!(
+                "{{\"kind\":\"the streamed object continued with the tail and a fresh object entered with its read-back state return different digests\",\"variant\":{},\"streamed\":{},\"tail\":{},\"same_object\":{},\"fresh_object_from_state\":{}}}",
+                v, n, jstr(&hex(&tail)), jstr(&hex(&same)), jstr(&hex(fresh.as_deref().unwrap_or(&[])))
+            ));
+        }
+        scases.push(SCase { v, cv: cv.clone(), count, buffered: buffered.clone(), tail: tail.clone(), stream: "real_stream", pre: None });
+        scases.push(SCase { v, cv, count, buffered, tail, stream: "real_stream_same_object", pre: Some(Some(same)) });
     }
     let icases = if reduced { Vec::new() } else { gen_intrinsics(&mut rng, thorough) };
 
@@ -588,8 +624,10 @@ fn main() {
         let bs = block_size(v);
         let pre = content(&mut rng, k, [0, 1, bs - 1, bs, 2 * bs + 3, 5 * bs][k / 4]);
         let tail = content(&mut rng, k + 2, [0, 9, bs][k % 3]);
-        if let Some(f) = hook_roundtrip(v, &pre, &tail) {
-            direct.push(f);
+        match catch_unwind(AssertUnwindSafe(|| hook_roundtrip(v, &pre, &tail))) {
+            Ok(Some(f)) => direct.push(f),
+            Ok(None) => {}
+            Err(_) => direct.push(format!("{{\"kind\":\"hook-roundtrip\",\"outcome\":\"panic\",\"variant\":{},\"pre\":{},\"tail\":{}}}", v, jstr(&hex(&pre)), jstr(&hex(&tail)))),
         }
     }
 
@@ -605,8 +643,23 @@ fn main() {
     let mut blocks_total = 0usize;
     let mut trivial = 0usize;
 
+    let (mut len_checked, mut bad_len, mut beyond_domain) = (0usize, 0usize, 0usize);
     for c in dcases.iter() {
-        let d = digest2(c.v, &c.msg, c.split);
+        let r = catch_unwind(AssertUnwindSafe(|| digest2(c.v, &c.msg, c.split))).ok();
+        panics += r.is_none() as usize;
+        let outcome = if r.is_some() { "ok" } else { "panic" };
+        let d = r.unwrap_or_default();
+        len_checked += 1;
+        if d.len() != out_len(c.v) {
+            bad_len += (outcome == "ok") as usize;
+            if direct.len() < 12 {
+                direct.push(format!(
+                    "{{\"kind\":{},\"case\":{{\"kind\":\"digest\",\"variant\":{},\"msg\":{},\"split\":{},\"outcome\":\"{}\",\"digest_len\":{},\"expected_digest_len\":{},\"digest\":{}}}}}",
+                    jstr(if outcome == "ok" { "the digest returned does not have the variant's length" } else { "the implementation panicked on a plain message" }),
+                    c.v, jstr(&hex(&c.msg)), c.split, outcome, d.len(), out_len(c.v), jstr(&hex(&d))
+                ));
+            }
+        }
         *by_stream.entry(c.stream).or_insert(0) += 1;
         by_variant[VARIANTS.iter().position(|&x| x == c.v).unwrap()] += 1;
         max_len = max_len.max(c.msg.len());
@@ -615,13 +668,16 @@ fn main() {
         distinct.insert(term.clone());
         coq.push(term);
         let j = format!(
-            "{{\"kind\":\"digest\",\"variant\":{},\"profile\":{},\"stream\":{},\"msg_len\":{},\"msg\":{},\"split\":{},\"digest\":{}}}",
+            "{{\"kind\":\"digest\",\"variant\":{},\"profile\":{},\"stream\":{},\"msg_len\":{},\"msg\":{},\"split\":{},\"outcome\":\"{}\",\"digest_len\":{},\"expected_digest_len\":{},\"digest\":{}}}",
             c.v,
             jstr(profile),
             jstr(c.stream),
             c.msg.len(),
             jstr(&hex(&c.msg)),
             c.split,
+            outcome,
+            d.len(),
+            out_len(c.v),
             jstr(&hex(&d))
         );
         if c.msg.len() == 56 && samples.len() < 2 {
@@ -630,10 +686,31 @@ fn main() {
         js.push(j);
     }
     for c in scases.iter() {
-        let r = digest_from(c.v, &c.cv, c.count, &c.buffered, &c.tail);
+        let r = match &c.pre {
+            Some(r) => r.clone(),
+            None => digest_from(c.v, &c.cv, c.count, &c.buffered, &c.tail),
+        };
         let panicked = r.is_none();
         panics += panicked as usize;
         let d = r.unwrap_or_default();
+        // the property speaks about messages of fewer than 2^64 blocks (padding included): states whose total
+        // lies beyond are pinned to the behaviour as written (debug panics, release wraps) and tagged, so that
+        // a later repair there can be told from a violation
+        let padded_blocks = (c.buffered.len() + c.tail.len() + 8) / block_size(c.v) + 1;
+        let beyond = (c.count as u128) + (padded_blocks as u128) >= 1u128 << 64;
+        beyond_domain += beyond as usize;
+        if !panicked {
+            len_checked += 1;
+            if d.len() != out_len(c.v) {
+                bad_len += 1;
+                if direct.len() < 12 {
+                    direct.push(format!(
+                        "{{\"kind\":\"the digest returned does not have the variant's length\",\"case\":{{\"kind\":\"entered_state\",\"variant\":{},\"cv\":{},\"block_counter\":\"0x{:x}\",\"buffered\":{},\"tail\":{},\"digest_len\":{},\"expected_digest_len\":{},\"digest\":{}}}}}",
+                        c.v, jstr(&hex(&c.cv)), c.count, jstr(&hex(&c.buffered)), jstr(&hex(&c.tail)), d.len(), out_len(c.v), jstr(&hex(&d))
+                    ));
+                }
+            }
+        }
         *by_stream.entry(c.stream).or_insert(0) += 1;
         by_variant[VARIANTS.iter().position(|&x| x == c.v).unwrap()] += 1;
         blocks_total += (c.buffered.len() + c.tail.len() + 9 + block_size(c.v) - 1) / block_size(c.v);
@@ -653,15 +730,17 @@ fn main() {
         distinct.insert(term.clone());
         coq.push(term);
         let j = format!(
-            "{{\"kind\":\"entered_state\",\"variant\":{},\"profile\":{},\"stream\":{},\"cv\":{},\"block_counter\":{},\"buffered\":{},\"tail\":{},\"outcome\":{},\"digest\":{}}}",
+            "{{\"kind\":\"entered_state\",\"variant\":{},\"profile\":{},\"stream\":{},\"domain\":{},\"cv\":{},\"block_counter\":{},\"buffered\":{},\"tail\":{},\"outcome\":{},\"digest_len\":{},\"digest\":{}}}",
             c.v,
             jstr(profile),
             jstr(c.stream),
+            jstr(if beyond { "beyond the property's domain: block_counter + padded blocks >= 2^64 (behaviour as written is pinned: overflow checks panic, otherwise the counter wraps)" } else { "within" }),
             jstr(&hex(&c.cv)),
             jstr(&format!("0x{:x}", c.count)),
             jstr(&hex(&c.buffered)),
             jstr(&hex(&c.tail)),
             jstr(if panicked { "panic" } else { "ok" }),
+            d.len(),
             jstr(&hex(&d))
         );
         if (c.count == 255 || c.count == u64::MAX) && samples.len() < 5 {
@@ -716,7 +795,7 @@ fn main() {
     std::fs::write(format!("{}/cases.json", out), format!("[{}]", js.join(",\n"))).unwrap();
     let streams_js: Vec<String> = by_stream.iter().map(|(k, v)| format!("{}:{}", jstr(k), v)).collect();
     println!(
-        "{{\"evaluations\":{},\"distinct_nontrivial\":{},\"profile\":{},\"by_variant\":{{\"224\":{},\"256\":{},\"384\":{},\"512\":{}}},\"by_stream\":{{{}}},\"panics\":{},\"trivial_intrinsic_cases\":{},\"max_msg_len\":{},\"message_blocks_total\":{},\"hook_roundtrips\":24,\"really_streamed_bytes\":{},\"direct_failures\":[{}],\"samples\":[{}]}}",
+        "{{\"evaluations\":{},\"distinct_nontrivial\":{},\"profile\":{},\"by_variant\":{{\"224\":{},\"256\":{},\"384\":{},\"512\":{}}},\"by_stream\":{{{}}},\"panics\":{},\"trivial_intrinsic_cases\":{},\"max_msg_len\":{},\"message_blocks_total\":{},\"hook_roundtrips\":24,\"really_streamed_bytes\":{},\"digest_lengths_checked\":{},\"digests_of_wrong_length\":{},\"beyond_domain_cases_tagged\":{},\"hook_shape_rotation\":{},\"direct_failures\":[{}],\"samples\":[{}]}}",
         n,
         distinct.len(),
         jstr(profile),
@@ -730,6 +809,10 @@ fn main() {
         max_len,
         blocks_total,
         real_bytes,
+        len_checked,
+        bad_len,
+        beyond_domain,
+        seed % 8,
         direct.join(","),
         samples.join(",")
     );
